@@ -109,6 +109,23 @@ const LOOPS: &[(&str, &str)] = &[
     ("limit(1) of a long selection", "limit(1; 0 | recurse(. + 1) | select(. >= $n))"),
 ];
 
+/// the step left of the tail call (or the stream folded by `foreach`) is a one-output generator of another kind
+const STEPS: &[(&str, &str)] = &[
+    ("step through first", "def f: if . >= $n then . else first(. + 1) | f end; 0 | f"),
+    ("step through an array iteration", "def f: if . >= $n then . else [. + 1][] | f end; 0 | f"),
+    ("step through select", "def f: if . >= $n then . else (. + 1 | select(true)) | f end; 0 | f"),
+    ("step through a binding", "def f: if . >= $n then . else (. + 1 as $x | $x) | f end; 0 | f"),
+    ("step through an object", "def f: if .a >= $n then .a else {a: (.a + 1)} | f end; {a: 0} | f"),
+    ("step through if", "def f: if . >= $n then . else (if . then . + 1 else 0 end) | f end; 0 | f"),
+    ("step through alternative", "def f: if . >= $n then . else (. + 1 // 0) | f end; 0 | f"),
+    ("foreach over a one-element array", "def f: if . >= $n then . else foreach [0][] as $x (.; . + 1; f) end; 0 | f"),
+    ("foreach over a literal", "def f: if . >= $n then . else foreach 0 as $x (.; . + 1; f) end; 0 | f"),
+    ("step through try", "def f: if . >= $n then . else (. + 1)? | f end; 0 | f"),
+    ("step through try-catch", "def f: if . >= $n then . else (try (. + 1) catch 0) | f end; 0 | f"),
+    ("step through limit(1)", "def f: if . >= $n then . else limit(1; . + 1) | f end; 0 | f"),
+    ("foreach over range(1)", "def f: if . >= $n then . else foreach range(1) as $x (.; . + 1; f) end; 0 | f"),
+];
+
 #[derive(Clone)]
 enum Kind {
     /// yields exactly one value, which must be $n
@@ -142,6 +159,9 @@ fn programs() -> Vec<Prog> {
     }
     for (n, c) in LOOPS {
         v.push(Prog { name: format!("loop: {n}"), code: c.to_string(), kind: Kind::Result });
+    }
+    for (n, c) in STEPS {
+        v.push(Prog { name: format!("step: {n}"), code: c.to_string(), kind: Kind::Result });
     }
     v
 }
@@ -292,13 +312,13 @@ pub fn main(tier: Tier) -> ! {
             }
         }
     }
-    run.family("tail-recursive nests", json!({"programs": progs.len(), "runs": njobs, "shapes": SHAPES.len(), "tail_positions": POSITIONS.len(), "argument_forms": ARGS.len(), "consumers": MODES.len(), "streams": STREAMS.len(), "builtin_loops": LOOPS.len(), "largest_peak_heap_growth_bytes": worst.0, "largest_growth_at": worst.1, "worker_stack_bytes": STACK}));
-    run.bound_done(format!("{} programs ({} shapes x {} tail positions x {} argument forms x {} consumers, {} streams, {} built-in loops) x N in {:?}", progs.len(), SHAPES.len(), POSITIONS.len(), ARGS.len(), MODES.len(), STREAMS.len(), LOOPS.len(), ns));
+    run.family("tail-recursive nests", json!({"programs": progs.len(), "runs": njobs, "shapes": SHAPES.len(), "tail_positions": POSITIONS.len(), "argument_forms": ARGS.len(), "consumers": MODES.len(), "streams": STREAMS.len(), "builtin_loops": LOOPS.len(), "one_output_steps": STEPS.len(), "largest_peak_heap_growth_bytes": worst.0, "largest_growth_at": worst.1, "worker_stack_bytes": STACK}));
+    run.bound_done(format!("{} programs ({} shapes x {} tail positions x {} argument forms x {} consumers, {} streams, {} built-in loops, {} kinds of one-output step left of the call) x N in {:?}", progs.len(), SHAPES.len(), POSITIONS.len(), ARGS.len(), MODES.len(), STREAMS.len(), LOOPS.len(), STEPS.len(), ns));
     run.add(c);
     run.sample(json!({"example": progs[progs.len() / 3].code, "name": progs[progs.len() / 3].name}));
     run.sample(json!({"shapes": SHAPES.iter().map(|s| s.0).collect::<Vec<_>>(), "tail_positions": POSITIONS.iter().map(|s| s.0).collect::<Vec<_>>(), "arguments": ARGS.iter().map(|s| s.0).collect::<Vec<_>>(), "consumers": MODES.iter().map(|s| s.0).collect::<Vec<_>>()}));
     run.finish(
-        "generator: 5 ways the recursion reaches the definition (self, child calls parent, grandchild calls grandparent, nested sibling calls sibling calls parent, after a local definition) x 9 tail positions (right of |, of ,, of //, of `as $x |`, then/else, elif, projection of foreach, after a local def, nested pipes and bindings) x 4 argument forms (none, variable, filter, both passed on) x 6 consumers (values, first, limit, label/break, array, try), plus 21 stream generators (incl. path mode) pulled N times and 18 built-in loops; every program runs N and 2N iterations (N = 1e5; thorough also 1e6) on a worker thread with a fixed 1 MiB stack under a per-thread heap counter: the result must be right, no overflow may occur (caught on an alternate signal stack and attributed to the running program), and the peak live heap at 2N may exceed that at N by at most 64 KiB. transitions = loop iterations executed. non-trivial = every run",
+        "generator: 5 ways the recursion reaches the definition (self, child calls parent, grandchild calls grandparent, nested sibling calls sibling calls parent, after a local definition) x 9 tail positions (right of |, of ,, of //, of `as $x |`, then/else, elif, projection of foreach, after a local def, nested pipes and bindings) x 4 argument forms (none, variable, filter, both passed on) x 6 consumers (values, first, limit, label/break, array, try), plus 21 stream generators (incl. path mode) pulled N times, 22 built-in loops, and 13 loops whose step left of the tail call (or whose folded stream) is a one-output generator of another kind (first, array iteration, select, binding, object, if, //, try, try-catch, limit(1), foreach over a literal / a one-element array / range(1)); every program runs N and 2N iterations (N = 1e5; thorough also 1e6) on a worker thread with a fixed 1 MiB stack under a per-thread heap counter: the result must be right, no overflow may occur (caught on an alternate signal stack and attributed to the running program), and the peak live heap at 2N may exceed that at N by at most 64 KiB. transitions = loop iterations executed. non-trivial = every run",
         &["built with the shipped evaluation strategy (profile fast: no debug assertions)", "a non-tail-recursive loop of 1e5 iterations needs well over 1 MiB of native stack in this build, so the fixed stack separates the two", "heap is measured per thread by a counting global allocator in the harness"],
     )
 }
